@@ -114,6 +114,7 @@ type nodeWorld struct {
 
 	afterItem      []func(it Item)
 	skipItem       func(it Item) bool
+	afterHostStart func(h *simHost)
 	afterHeartbeat []func(pre, post *snapshot)
 	beforeItem     []func(it Item)
 	atEnd          []func()
@@ -422,7 +423,7 @@ func (w *nodeWorld) startNode(extra ...Option) error {
 	opts = append(opts, w.validatorOptions()...)
 	opts = append(opts, extra...)
 	kr := newPrng(w.plan.Seed, "nodekey")
-	n, err := w.s.newNode("N", genKey(kr, w.plan.ki("node_key_type", 0)), nodeCfg{router: router, opts: opts, rsize: w.plan.ki("rsize", 3), tee: w.teeTracers})
+	n, err := w.s.newNode("N", genKey(kr, w.plan.ki("node_key_type", 0)), nodeCfg{router: router, opts: opts, rsize: w.plan.ki("rsize", 3), tee: w.teeTracers, afterHostStart: w.afterHostStart})
 	if err != nil {
 		return err
 	}
